@@ -398,7 +398,14 @@ def run_handler_scenario(seed, n_events=14):
             c0 = r.choice(ctxs)
             register("h1", c0, forced=dict(guard="trig", fail="none", resume="tail", ret="count", suffix=None, ttl=None, slow_ms=0,
                                           appends=[dict(topic="side", meta={"k": 1}, ttl=None, ctx=None, content="c1"),
-                                                   dict(topic="aux", meta=None, ttl="ephemeral", ctx=None, content="héllo wörld")]))
+                                                   dict(topic="aux", meta=None, ttl="ephemeral", ctx=None, content="héllo wörld"),
+                                                   # --context naming ANOTHER context: the frame still lands in the handler's own
+                                                   dict(topic="aux", meta=None, ttl=None, content="scoped",
+                                                        ctx=next((x for x in ctxs if x != c0), None))]))
+            # a closure that appends and THEN fails: none of its appends may appear, only <name>.unregistered with the error
+            register("h3", c0, forced=dict(guard="t2", fail="after", resume="tail", ret="count", suffix=None, ttl=None, slow_ms=0,
+                                          appends=[dict(topic="aux", meta={"n": 7, "s": "t"}, ttl=None, ctx=None, content="c1")]))
+            cl.append("t2", ctx=c0, body=b"t"); report["triggers"] += 1
             register("h2", c0, forced=dict(guard="side", fail="none", resume="tail", ret="frame", suffix=r.choice([None, ".x"]),
                                           ttl=r.choice([None, "ephemeral"]), slow_ms=0, appends=[]))
             for _ in range(2):
@@ -1033,7 +1040,10 @@ def run_generator_scenario(seed, max_wait_s=12.0):
                 i = cl.append(n + ".spawn", ctx=c, body=expr.encode())
                 gens.append(dict(id=i, ctx=c, name=n, outs=outs, kind="plain")); rep["exprs"].append(expr)
             elif kind == "duplex":
-                i = cl.append(n + ".spawn", ctx=c, body=GEN_DUPLEX.encode(), meta={"duplex": True})
+                # (a spawn appended by a handler carries the handler's stamps in its meta: other keys must not switch duplex off)
+                i = cl.append(n + ".spawn", ctx=c, body=GEN_DUPLEX.encode(),
+                              meta=r.choice([{"duplex": True}, {"duplex": True, "handler_id": "03gyxolvlf17xltnf3bd6jviu", "frame_id": "03gyxolvlf17xltnf3bd6jviv"},
+                                             {"note": "x", "duplex": True}]))
                 gens.append(dict(id=i, ctx=c, name=n, outs=None, kind="duplex", sends=[]))
             elif kind == "nocontent":
                 i = cl.append(n + ".spawn", ctx=c)
